@@ -10,6 +10,7 @@ import (
 	"github.com/zenon-network/go-zenon/chain/nom"
 	"github.com/zenon-network/go-zenon/common/types"
 	"github.com/zenon-network/go-zenon/verifier"
+	"github.com/zenon-network/go-zenon/vm/constants"
 	"github.com/zenon-network/go-zenon/vm/embedded/definition"
 	"github.com/zenon-network/go-zenon/wallet"
 
@@ -24,6 +25,7 @@ import (
 // received (C09), within the emission (C11).
 
 type dustArg struct {
+	Kind    string // "" = dust backers; "sentinel-late-revoke"
 	Seed    int64
 	Amounts [2]int64 // base units held by the two backers at the start of the epoch
 	Move    int64    // base units moved from the first to the second backer in mid-epoch
@@ -47,6 +49,9 @@ func init() {
 }
 
 func dustScenario(a dustArg) (*scenarioResult, error) {
+	if a.Kind == "sentinel-late-revoke" {
+		return sentinelLateRevoke(a)
+	}
 	walk.LabConstants()
 	verifier.ReceiverMismatchEnforcementHeight = 1
 	res := &scenarioResult{}
@@ -188,7 +193,8 @@ func dustScenario(a dustArg) (*scenarioResult, error) {
 }
 
 func dustRuns(run *core.Run, prop string) []ledgerRun {
-	args := []dustArg{{Seed: run.Seed, Amounts: [2]int64{1, 0}, Move: 1}, {Seed: run.Seed, Amounts: [2]int64{1, 1}, Move: 0}, {Seed: run.Seed, Amounts: [2]int64{3, 0}, Move: 2}}
+	args := []dustArg{{Seed: run.Seed, Amounts: [2]int64{1, 0}, Move: 1}, {Seed: run.Seed, Amounts: [2]int64{1, 1}, Move: 0}, {Seed: run.Seed, Amounts: [2]int64{3, 0}, Move: 2},
+		{Kind: "sentinel-late-revoke", Seed: run.Seed}}
 	if run.Thorough() {
 		args = append(args, dustArg{Seed: run.Seed, Amounts: [2]int64{2, 1}, Move: 2}, dustArg{Seed: run.Seed, Amounts: [2]int64{1, 0}, Move: 0}, dustArg{Seed: run.Seed, Amounts: [2]int64{100000000, 1}, Move: 99999999})
 	}
@@ -224,4 +230,95 @@ func dustRuns(run *core.Run, prop string) []ledgerRun {
 	run.Set("dust_backers_scenarios", stats)
 	_ = prop
 	return runs
+}
+
+// sentinelLateRevoke: two sentinels are active for (almost) a whole epoch; one of them revokes in the epoch's last tenth.
+// Whatever the contract decides about who is eligible, what it credits for the epoch stays within the epoch's emission (C11).
+func sentinelLateRevoke(a dustArg) (*scenarioResult, error) {
+	walk.LabConstants()
+	verifier.ReceiverMismatchEnforcementHeight = 1
+	res := &scenarioResult{}
+	node.Clock.Set(time.Unix(1000000000, 0))
+	cap := ledger.StartCapture()
+	defer cap.Stop()
+	p, err := node.New("sentinels", node.Options{Producer: true})
+	if err != nil {
+		return nil, err
+	}
+	defer p.Stop()
+	znn, qsr := types.ZnnTokenStandard, types.QsrTokenStandard
+	call := func(what string, key *wallet.KeyPair, tok types.ZenonTokenStandard, amt *big.Int, data []byte) error {
+		if _, err := p.Submit(&nom.AccountBlock{BlockType: nom.BlockTypeUserSend, Address: key.Address, ToAddress: types.SentinelContract, TokenStandard: tok, Amount: amt, Data: data}, key); err != nil {
+			return fmt.Errorf("sentinel scenario: %s refused: %v", what, err)
+		}
+		return nil
+	}
+	owners := []*wallet.KeyPair{g.User1, g.User2}
+	for _, u := range owners {
+		if err := call("deposit", u, qsr, constants.SentinelQsrDepositAmount, definition.ABISentinel.PackMethodPanic(definition.DepositQsrMethodName)); err != nil {
+			return nil, err
+		}
+	}
+	// registration about 50 s into an epoch: the periodic revoke window (locked 200 s, open 100 s) then covers seconds 550..650,
+	// i.e. the last tenth of that epoch
+	for int(p.Height())%walk.EpochMomentums != 4 {
+		if err := p.Produce(0); err != nil {
+			return nil, err
+		}
+	}
+	for _, u := range owners {
+		if err := call("register", u, znn, constants.SentinelZnnRegisterAmount, definition.ABISentinel.PackMethodPanic(definition.RegisterSentinelMethodName)); err != nil {
+			return nil, err
+		}
+	}
+	for int(p.Height())%walk.EpochMomentums != 56+int(a.Seed%2) {
+		if err := p.Produce(0); err != nil {
+			return nil, err
+		}
+	}
+	if err := call("revoke", owners[1], types.ZeroTokenStandard, big.NewInt(0), definition.ABISentinel.PackMethodPanic(definition.RevokeSentinelMethodName)); err != nil {
+		return nil, err
+	}
+	var perr error
+	for i := 0; i < walk.EpochMomentums+2*walk.UpdateMomentums+10; i++ {
+		if perr = p.Produce(0); perr != nil {
+			break
+		}
+	}
+	if perr != nil {
+		res.Findings = append(res.Findings, [2]string{"producer-stops", fmt.Sprintf("the producing node cannot produce: %v (problems %v)", perr, p.Problems)})
+	}
+	for _, u := range owners {
+		call("collect", u, types.ZeroTokenStandard, big.NewInt(0), definition.ABICommon.PackMethodPanic(definition.CollectRewardMethodName))
+	}
+	w := walk.New(p, a.Seed)
+	if drained, err := w.Drain(40); err != nil || !drained {
+		res.Findings = append(res.Findings, [2]string{"inbox-not-drained", fmt.Sprintf("the contract inboxes do not drain (%v)", err)})
+	}
+	// not vacuous: the revocation went through (one active sentinel left) and an epoch was rewarded
+	st := p.Chain.GetFrontierMomentumStore().GetAccountStore(types.SentinelContract).Storage()
+	active := 0
+	definition.IterateSentinelEntries(st, func(s *definition.SentinelInfo) error {
+		if s.RevokeTimestamp == 0 {
+			active++
+		}
+		return nil
+	})
+	last, err := definition.GetLastEpochUpdate(st)
+	if err != nil || last.LastEpoch < 1 || active != 1 {
+		return nil, fmt.Errorf("sentinel scenario: %d active sentinels, last rewarded epoch %v (%v): the scenario did not play out", active, last, err)
+	}
+	ids := cap.ChainIDs()
+	if len(ids) != 1 {
+		return nil, fmt.Errorf("expected one chain in capture, got %v", ids)
+	}
+	pr := ledger.NewProjector()
+	pr.Observer = ledger.StandardObserver(walk.EpochMomentums)
+	if err := cap.Project(ids[0], pr); err != nil {
+		return nil, err
+	}
+	name := fmt.Sprintf("sentinel late-revoke scenario seed=%d enforced=true", a.Seed)
+	res.Run = ledgerRun{Name: name, Events: pr.Events, Note: pr.Note}
+	res.Stats = fmt.Sprintf("%s: %d momentums, %d blocks, sentinel contract rewarded up to epoch %d, %d active sentinel left", name, pr.Momentums, pr.Blocks, last.LastEpoch, active)
+	return res, nil
 }
